@@ -503,72 +503,24 @@ class C29(Property):
                         return "ordvals"
                 elif a[0] == "T" and a[1] % 3 != 1:
                     n_src = spec["shape"][j - 1]
-                    want = list(np.array(mk_axis(a).coordinates(n_src))[sel])
+                    src_axis = mk_axis(a)
+                    want = list(np.array(src_axis.coordinates(n_src))[sel])
                     ax = out_axes[oi]
                     have = [float(v) for v in (ax.values if isinstance(ax, A.OrdinalAxis) else ax.coordinates(len(want)))] if len(want) else []
                     if len(have) != len(want) or not np.allclose(want, have):
-                        kind = "list" if isinstance(it, list) else ("forward-slice" if (it.step is None or it.step > 0) else "backward-slice")
-                        ctx.violation(f"get-{kind}-linear-axis-coordinates-wrong", case, {"expected": want, "coordinates": have})
+                        forward = isinstance(it, slice) and (it.start is None or it.start >= 0) and (it.step is None or it.step >= 1)
+                        # the recorded defect is "the axis is copied unchanged": re-derive that before using a known key
+                        plain_copy = type(ax) is type(src_axis) and ax.offset == src_axis.offset and ax.sampling == src_axis.sampling
+                        if forward or not plain_copy:
+                            key = "get-linear-axis-coordinates-wrong"
+                        elif isinstance(it, slice):
+                            key = "get-backward-or-negative-start-slice-linear-axis-coordinates-not-updated"
+                        else:
+                            key = "get-index-list-linear-axis-coordinates-not-updated"
+                        ctx.violation(key, case, {"expected": want, "coordinates": have})
                         return "coords"
                 oi += 1
         return "ok"
-
-    # -- selections of scan axes keep the object a scan ---------------------------------------
-    def scan_oracle(self, ctx: Ctx, case):
-        import abtem
-        from abtem.core import axes as A
-        n1, n2 = case["n"]
-        d = abtem.DiffractionPatterns(np.arange(n1 * n2 * 16, dtype=np.float32).reshape(n1, n2, 4, 4) % 7, sampling=0.05,
-                                      ensemble_axes_metadata=[A.ScanAxis(label="x", sampling=0.5, offset=1.0), A.ScanAxis(label="y", sampling=0.25)],
-                                      metadata={"energy": 1e5})
-        if case.get("lazy"):
-            d = d.ensure_lazy()
-        items = tuple(py_item(i) for i in case["items"])
-        full = [np.array(d.axes_metadata[j].coordinates(n)) for j, n in enumerate((n1, n2))]
-        r = d[items]
-        for j, (it, n) in enumerate(zip(items, (n1, n2))):
-            idx = np.arange(n)[it]
-            steps = np.diff(idx)
-            regular = len(steps) == 0 or (steps[0] != 0 and np.all(steps == steps[0]))
-            ax = r.axes_metadata[j]
-            want = full[j][it]
-            if regular:
-                if not isinstance(ax, A.ScanAxis):
-                    ctx.violation("get-scan-axis-type-lost", case, {"axis": j, "type": type(ax).__name__})
-                    return "type"
-                have = np.array(ax.coordinates(len(want)), dtype=float) if len(want) else np.array([])
-            else:
-                have = np.array([float(v) for v in ax.values]) if isinstance(ax, A.OrdinalAxis) else np.array(ax.coordinates(len(want)), dtype=float)
-            if len(have) != len(want) or not np.allclose(have, want):
-                ctx.violation("get-scan-axis-coordinates-wrong", case, {"axis": j, "expected": list(want), "coordinates": list(have)})
-                return "coords"
-        if all(isinstance(a, A.ScanAxis) for a in r.axes_metadata[:2]) and r.shape[0] >= 1 and r.shape[1] >= 1:
-            try:   # still a scan: the scan-only methods keep working
-                g = r.gaussian_source_size(0.3)
-                c = r.center_of_mass()
-                if type(c).__name__ != "Images" or type(g).__name__ != "DiffractionPatterns":
-                    ctx.violation("get-scan-selection-no-longer-a-scan", case, {"com": type(c).__name__, "gss": type(g).__name__})
-                    return "scan"
-            except Exception as e:  # noqa
-                ctx.violation("get-scan-selection-no-longer-a-scan", case, {"error": f"{type(e).__name__}: {e}"[:200]})
-                return "scan"
-        return "ok"
-
-    def gen_scan_case(self, ctx: Ctx):
-        rng = ctx.rng
-        n = [rng.randint(2, 5), rng.randint(2, 5)]
-        items = []
-        for m in n:
-            c = rng.random()
-            if c < 0.45:
-                f = lambda: rng.choice([None, rng.randint(-m - 1, m + 1)])
-                items.append(["s", f(), f(), rng.choice([None, 1, 2, -1, -2])])
-            elif c < 0.8:
-                first, step = rng.randrange(m), rng.choice([1, 2, -1, -2])
-                items.append(["l", [v for v in range(first, first + 3 * step, step) if 0 <= v < m] or [first]])
-            else:
-                items.append(["l", [rng.randrange(m) for _ in range(rng.randint(1, 3))]])
-        return {"scan": True, "n": n, "items": items, "lazy": rng.random() < 0.3}
 
     def gen_conf(self, ctx: Ctx, i):
         rng = ctx.rng
@@ -580,11 +532,6 @@ class C29(Property):
         return {"spec": spec, "op": op, "lazy": rng.random() < 0.4 and not dask_unsafe(spec, op)}
 
     def conformance(self, ctx: Ctx):
-        for i in range(ctx.n(150, 2500)):
-            case = self.gen_scan_case(ctx)
-            r = self.scan_oracle(ctx, case)
-            ctx.count(f"conf:scan-selection:{r}")
-            ctx.case(case)
         for i in range(ctx.n(1200, 20000)):
             case = self.gen_conf(ctx, i)
             r = self.oracle(ctx, case)
@@ -592,10 +539,7 @@ class C29(Property):
             ctx.case(case, nontrivial=bool(case["spec"]["axes"]))
 
     def replay(self, ctx: Ctx, case):
-        if case.get("scan"):
-            self.scan_oracle(ctx, case)
-        else:
-            self.oracle(ctx, case)
+        self.oracle(ctx, case)
 
 
 if __name__ == "__main__":
